@@ -1327,7 +1327,15 @@ impl Indexer for DynamicCodeIndices {
         let index = mem::replace(index, IndexMap::with_hasher(FxBuildHasher::default()));
         let index = Self::second_level_index(index, prelude);
 
-        if index.len() > 1 {
+        // a key whose clauses form a choice sequence gets its table even
+        // when it is the only key: a second key asserted later would
+        // otherwise have to move the sequence to another line, and the
+        // calls iterating it remember the line.
+        let has_choice_sequence = index
+            .values()
+            .any(|ptr| matches!(ptr, IndexingCodePtr::Internal(_)));
+
+        if index.len() > 1 || has_choice_sequence {
             let instr = instr_fn(index);
             prelude.push_front(IndexingLine::from(instr));
 
